@@ -33,3 +33,32 @@ Definition exit_code (first : option serr) : N :=
   | None | Some ErrEOF | Some ErrOneShellClosed => 0
   | Some _ => 1
   end.
+
+(** The watcher as the translator (translator/watcher) reads it off the working
+    tree: (event whose case the action stands in | "any", condition on
+    s.oneShell: "one" | "notone" | "always" | "never", action).  [table_is_watch]
+    says that such a table denotes exactly [watch]. *)
+From Coq Require Import String.
+Definition ev_name (e : ev) : string :=
+  match e with EConn => "EventTypeConnected" | EDisc => "EventTypeDisconnected" end.
+Definition act_of (s : string) : option wact :=
+  if String.eqb s "Announce" then Some Announce else if String.eqb s "CloseListener" then Some CloseListener
+  else if String.eqb s "PrintHelp" then Some PrintHelp else None.
+Definition cond_holds (c : string) (one_shell : bool) : bool :=
+  if String.eqb c "always" then true else if String.eqb c "one" then one_shell else if String.eqb c "notone" then negb one_shell else false.
+Definition watch_of_table (tbl : list (string * string * string)) (one_shell : bool) (e : ev) : list (option wact) :=
+  map (fun x => act_of (snd x))
+      (filter (fun x => (String.eqb (fst (fst x)) (ev_name e) || String.eqb (fst (fst x)) "any") && cond_holds (snd (fst x)) one_shell) tbl).
+Definition wact_eqb (a b : option wact) : bool :=
+  match a, b with
+  | Some Announce, Some Announce | Some CloseListener, Some CloseListener | Some PrintHelp, Some PrintHelp => true
+  | _, _ => false
+  end.
+Fixpoint wacts_eqb (a b : list (option wact)) : bool :=
+  match a, b with
+  | [], [] => true
+  | x :: a', y :: b' => wact_eqb x y && wacts_eqb a' b'
+  | _, _ => false
+  end.
+Definition table_is_watch (tbl : list (string * string * string)) : bool :=
+  forallb (fun one => forallb (fun e => wacts_eqb (watch_of_table tbl one e) (map Some (watch one e))) [EConn; EDisc]) [true; false].
